@@ -140,7 +140,9 @@ def run_extract(ctx):
             base = json.load(fh)
         now = ctx.generated_info.get("fingerprints", {})
         changed = sorted(k for k in set(base) | set(now) if base.get(k) != now.get(k))
-        ctx.escalated = bool(changed)
+        # VERIF_ESCALATE=1 forces the enlarged run on an unchanged tree (used to validate that the enlarged generators
+        # raise no alarm on code where the properties hold)
+        ctx.escalated = bool(changed) or os.environ.get("VERIF_ESCALATE") == "1"
         ctx.extra["source_files_changed_vs_baseline"] = changed
         if changed:
             ctx.notes.append("source differs from the fingerprint baseline in %s: correspondence run enlarged" % ", ".join(changed[:6]))
